@@ -13,7 +13,7 @@ HARNESS_PKGS = {
 
 ADV_DEFAULTS = dict(MinDelay=6, MaxRADelay=1, InitCap=32, InitCount=3, MinIv=7, MaxIv=8, ChanCap=2, Retries=2,
                     BackoffUnit=1, UnicastOnly="FALSE", CfgLife=1800, Hosts='{"h1"}', Kinds="{}", MaxIn=2, MaxT=10,
-                    MaxFlips=0, MaxHolds=0, WriteFaults="FALSE", LinkFaults="FALSE", AllowCancel="TRUE", Sec=1)
+                    MaxFlips=0, MaxHolds=0, WriteFaults="FALSE", LinkFaults="FALSE", AllowCancel="TRUE", Sec=1, MaxQueries=0)
 ADV_INVARIANTS = "Req TypeOK C08_Prompt C08_NothingRunsAfterReturn C09_Alive C10_NoHalfAlive C10_NoLeak"
 
 ENV_DEFAULTS = dict(Srcs='{"unspec"}', Kinds="{}", HoldDsts="{}", FailDsts="{}", Terms="{}", MaxFlips=0, MaxEv=3,
@@ -100,12 +100,14 @@ def history_to_steps(h, grid, tail=7000, jitter=None, snap=True, hl_for_bad=None
             steps.append({"op": "readerr", "class": op.split("_", 1)[1]})
         elif op == "link":
             steps.append({"op": "link"})
+        elif op in ("scrape", "api"):
+            steps.append({"op": op})
         elif op == "flip":
             steps.append({"op": "flip", "toggle": True})
         elif op == "hold":
-            steps.append({"op": "hold", "key": "w|" + _dst(e["dst"])})
+            steps.append({"op": "hold", "key": "fwd|vf0" if e["dst"] == "fwdgate" else "w|" + _dst(e["dst"])})
         elif op == "release":
-            steps.append({"op": "release", "key": "w|" + _dst(e["dst"])})
+            steps.append({"op": "release", "key": "fwd|vf0" if e["dst"] == "fwdgate" else "w|" + _dst(e["dst"])})
         elif op == "failw":
             steps.append({"op": "failw", "dst": _dst(e["dst"]), "class": e.get("class", "other")})
         elif op == "cancel":
@@ -194,12 +196,21 @@ def validate(tmp, out_files, tag, ifis=("vf0",), consts=None, lines_per_batch=60
     samples = []
     for f in out_files:
         ev = vf.read_ndjson(f)
-        for ifi in ifis:
-            c = advtrace.compact(ev, ifi)
-            if ifi != "vf0":
+        for n, ifi in enumerate(ifis):
+            if n > 0:
+                # only scenarios that really have this interface
+                sel, keep = [], False
+                for e in ev:
+                    if e["ev"] == "reset":
+                        keep = e.get("nif", 1) > n
+                    if keep:
+                        sel.append(e)
+                c = advtrace.compact(sel, ifi)
                 for e in c:
                     if e["ev"] == "reset":
                         e["id"] = e["id"] + "@" + ifi
+            else:
+                c = advtrace.compact(ev, ifi)
             rows.append(c)
     flat = [e for c in rows for e in c]
     # split into batches at reset boundaries
